@@ -397,7 +397,7 @@ func checkC11(c *Ctx) {
 			ev := callErrValue(next)
 			okUpd := false
 			for _, ci := range Calls(f) {
-				if sc := ci.Common().StaticCallee(); sc != nil && sc.Name() == "updateGameState" || sc != nil && p.MayMutate(sc, gameWatch()) {
+				if sc := ci.Common().StaticCallee(); sc != nil && fnName(sc) == "updateGameState" || sc != nil && p.MayMutate(sc, gameWatch()) {
 					if nilGuard(p.Guards(ci), true, func(s *Sym) bool { return s.V == ev }) {
 						// publishes the state returned by Next
 						a := p.Sym(ci.Common().Args[len(ci.Common().Args)-1]).Strip()
